@@ -46,6 +46,8 @@ var c11Receivers = map[model.Kind][]model.Value{
 		model.Str("éx"), model.Str("ılık"), model.Str("ſo"), model.Str("ɐb"), model.Str("ɐ"), model.Str("ⱥb"), model.Str("ǆx"), model.Str("  pad\t\n"), model.Str("12"), model.Str("-7"), model.Str("a,b,,c"), model.Str("&lt;b&gt; &amp;"), model.Str("ßx"), model.Str("xx--xx"), model.Str("café"), model.Str("Maß"), model.Str("日本語"), model.Str("x😀"), model.Str("añ"), model.Str("©é©"), model.Str("abc\uFFFD"), model.Str("\uFFFD"), model.Str("\uFFFDx\uFFFD"), model.Str("x\U0010FFFF"),
 		// character references of every spelling (raw() undoes them all)
 		model.Str("&quot;x&apos; &nbsp;&copy; &#60;&#x3e;&#X3C; &amp;amp; &lt"), model.Str("&quot;"), model.Str("&#39;&#34;&#038;"),
+		// references written without their semicolon, in strings that hold no semicolon at all
+		model.Str("x &lt y"), model.Str("&lt"), model.Str("&amp"), model.Str("&#60"), model.Str("&copy 2024 &reg"), model.Str("a&ampb &gt&lt"), model.Str("Ⅷ ⅷ Ⓐⓐ ǅ"),
 		// characters whose upper or lower case form has another encoded width, or none of their own
 		model.Str("İstanbul"), model.Str("İZMİR"), model.Str("\u212Aelvin \u212B \u2126"), model.Str("ẞ"), model.Str("xȺ"), model.Str("Ⱦ"), model.Str("ǅ ǈ ǋ ǲ"), model.Str("ǆǉ"), model.Str("ɐɑɒ"), model.Str("ſt"), model.Str("ŉ"), model.Str("ΐ"), model.Str("ß"), model.Str("ﬁ"), model.Str("ქართული"), model.Str("ᲓᲐ"),
 	},
